@@ -10,6 +10,11 @@ ops (CERT = 12-token descriptor, Driver/CertArgs.lean):
     keyok     : the key's public half is the signer's public key (honest signer)
     keyparses : ecdsa.ParseRawPrivateKey accepts the key (P-256 only)
     marshalok : marshalForSigning succeeds (v1: name and groups are valid UTF-8)
+  cli <caver> <cacurve> <cadur s> <canets> <caunsafe> <cagroups> <encrypt 0|1> <ver 0|1|2> <dur s|0> n<name> <nets> <unsafe> <groups>
+      -> ca:err:<kind> | sign:err:<kind>
+       | ok <ver> <curve> <isCA> <duration s | d = one second before the CA expires> n<name> <nets> <unsafe> <groups>
+            <issuer is the CA 0|1> <key matches 0|1> <notBefore inside the call 0|1> <lowS> <verify now> <CA as requested 0|1>
+      (`nebula-cert ca` + `nebula-cert sign` built from the repository, outputs read back with the real decoders)
   norm <sig hex>  -> <IsNormalized 0|1|err> <Normalize hex|err> <Swap hex|err>
   sws <ver> <sig hex> -> ok <issued sig hex> <IsNormalized> | err:normalize | err:empty-signature   (SignWith, scripted signer)
 -/
@@ -33,6 +38,7 @@ def signErrStr : SignErr → String
   | .issuerFingerprint => "err:issuer-fingerprint" | .selfSignedNotCA => "err:self-not-ca"
   | .invalid e => "err:invalid:" ++ invStr e | .unknownVersion => "err:unknown-version" | .marshal => "err:marshal"
   | .signer => "err:signer" | .normalize => "err:normalize" | .emptySignature => "err:empty-signature"
+  | .tooLarge => "err:invalid:too-large"
 
 /-- same multiset of prefixes (lists are short). -/
 def sameNets (a b : List Prefix) : Bool := a.length == b.length && a.all (b.contains ·) && b.all (a.contains ·)
@@ -87,7 +93,7 @@ def step (s : Unit) (args : List String) (impl : String) : Unit × Out :=
             checkSig := fun x _ => if x.isCA && !t.isCA then true else keyok }
         let E : SignEnv :=
           { K := K, tbsBytes := fun _ => if marshalok == "1" then some [0] else none,
-            sign := fun _ => some [1], normalize := fun b => some b }
+            sign := fun _ => some [1], normalize := fun b => some b, tooLarge := fun _ => false }
         let m := match sign E (signer.map (·.1)) kc (keyparses == "1") t with
           | .error e => signErrStr e
           | .ok c =>
@@ -106,6 +112,77 @@ def step (s : Unit) (args : List String) (impl : String) : Unit × Out :=
         let tag := if m.startsWith "ok" then (if signer.isSome then "sign:ok" else "sign:ok-self") else "sign:" ++ m
         (s, { model := m, verdict := signVerdict signer keyok t impl, tag := tag })
     | _, _ => (s, badOp)
+  | ["cli", caver, cacurve, cadur, canets, cauns, cagroups, _enc, ver, dur, name, nets, uns, groups] =>
+    -- `nebula-cert ca` then `nebula-cert sign` as subprocesses: the flags become two to-be-signed certificates; wall
+    -- clock instants are replaced by durations (CA: [0, cadur]; the host certificate starts in the CA's first second)
+    match natArg caver, natArg cacurve, intArg cadur, optList parsePrefix canets, optList parsePrefix cauns,
+          optList (parseTagged 'g') cagroups, natArg ver, intArg dur, parseTagged 'n' name, optList parsePrefix nets,
+          optList parsePrefix uns, optList (parseTagged 'g') groups with
+    | some caver, some cacurve, some cadur, some canets, some cauns, some cagroups, some ver, some dur, some name,
+      some nets, some uns, some groups =>
+      let K : Crypto := { fingerprint := fun _ => some "ca", altFingerprint := fun _ => some "", checkSig := fun _ _ => true }
+      let E : SignEnv := { K := K, tbsBytes := fun _ => some [0], sign := fun _ => some [1], normalize := fun b => some b,
+                           tooLarge := fun _ => false }
+      let caT : Cert := { version := caver, curve := cacurve, name := [99, 97], networks := canets, unsafeNetworks := cauns,
+                          groups := cagroups, isCA := true, notBefore := 0, notAfter := cadur * 1000000000, issuer := "",
+                          publicKey := [1], signature := [] }
+      let v := if ver == 0 then caver else ver
+      let v4 (l : List Prefix) := l.filter (fun p => p.addr.fam == Fam.v4)
+      let v6 (l : List Prefix) := l.filter (fun p => p.addr.fam != Fam.v4)
+      let d := if dur ≤ 0 then cadur - 1 else dur
+      let durTok := if dur ≤ 0 then "d" else toString dur
+      -- what `sign` hands to TBSCertificate.Sign, or the flag-level refusal
+      let tbs : Except String Cert :=
+        if nets.isEmpty then .error "err:cli-no-networks"
+        else if v == 1 then
+          (if (v4 nets).length != 1 then .error "err:cli-v1-single"
+           else if !(v6 nets).isEmpty then .error "err:cli-v1-ipv4"
+           else if !(v6 uns).isEmpty then .error "err:cli-v1-unsafe-ipv4"
+           else .ok { version := 1, curve := cacurve, name := name, networks := (v4 nets).take 1, unsafeNetworks := v4 uns,
+                      groups := groups, isCA := false, notBefore := 0, notAfter := d * 1000000000, issuer := "",
+                      publicKey := [2], signature := [] })
+        else .ok { version := v, curve := cacurve, name := name, networks := v4 nets ++ v6 nets, unsafeNetworks := v4 uns ++ v6 uns,
+                   groups := groups, isCA := false, notBefore := 0, notAfter := d * 1000000000, issuer := "",
+                   publicKey := [2], signature := [] }
+      let lowS := if cacurve == curveP256 then "1" else "-"
+      let m := match sign E none cacurve true caT with
+        | .error e => "ca:" ++ signErrStr e
+        | .ok ca =>
+          match tbs with
+          | .error e => "sign:" ++ e
+          | .ok t =>
+            match sign E (some ca) cacurve true t with
+            | .error e => "sign:" ++ signErrStr e
+            | .ok c =>
+              " ".intercalate ["ok", toString c.version, toString c.curve, boolStr c.isCA, durTok, "n" ++ bytesToHex c.name,
+                showList showPrefix c.networks, showList showPrefix c.unsafeNetworks,
+                showList (fun g => "g" ++ bytesToHex g) c.groups, "1", "1", "1", lowS, "ok", "1"]
+      -- the property on what the binary did: nothing outside the CA is issued; what is issued is what was asked for,
+      -- names the CA, matches its key, verifies now under a pool holding the CA, and is low-S on P-256
+      let verdict :=
+        if impl.startsWith "ok " then
+          match impl.splitOn " " with
+          | [_, iv, ic, ica, idur, iname, inets, iuns, igroups, issuerOk, keyOk, nbOk, ilowS, verify, caOk] =>
+            match optList parsePrefix inets, optList parsePrefix iuns, optList (parseTagged 'g') igroups with
+            | some inets, some iuns, some igroups =>
+              let secs : Int := if idur == "d" then cadur - 1 else (idur.toInt?.getD (cadur + 1))
+              if caOk != "1" then "bad cli-ca-not-as-requested"
+              else if !withinFieldsB caT 0 (secs * 1000000000) igroups inets iuns then "bad cli-signed-outside-ca-constraints"
+              else if ica != "0" || iv != toString v || ic != toString cacurve || iname != "n" ++ bytesToHex name ||
+                      igroups != groups || !sameNets iuns uns || !(if v == 1 then inets == (v4 nets).take 1 else sameNets inets nets) ||
+                      idur != durTok then "bad cli-issued-fields-differ"
+              else if issuerOk != "1" || keyOk != "1" || nbOk != "1" || verify != "ok" then s!"bad cli-issued-does-not-verify {issuerOk}{keyOk}{nbOk} {verify}"
+              else if cacurve == curveP256 && ilowS != "1" then "bad cli-issued-high-s"
+              else "ok"
+            | _, _, _ => "bad cli-answer-unparsable"
+          | _ => "bad cli-answer-unparsable"
+        else if impl.startsWith "sign:err:refused-but-wrote" then "bad cli-refused-but-wrote-certificate"
+        else if impl.startsWith "ca:err:key-encryption" then "bad cli-key-encryption-flag-ignored"
+        else if impl.startsWith "cli-unavailable" then s!"bad cli-unavailable {impl}"
+        else "ok"
+      let tag := if m.startsWith "ok" then s!"cli:ok:v{v}" else "cli:" ++ m
+      (s, { model := m, verdict := verdict, tag := tag })
+    | _, _, _, _, _, _, _, _, _, _, _, _ => (s, badOp)
   | ["norm", hex] =>
     -- cert/p256 on a signature encoding: the answers are fully determined (scalar model + DER)
     match hexToBytes hex with
